@@ -320,6 +320,9 @@ func (s *Sleeper) enqueueAssertedWaker(w *Waker) {
 			if g != preparingG {
 				// We managed to get a G. Wake it up.
 				verifPoint(13, unsafe.Pointer(s))
+				if verifEnabled && verifReady(g) {
+					continue
+				}
 				goready(g, 0)
 			}
 		}
